@@ -75,13 +75,16 @@ prop(
 
 prop(
     "C08",
-    rules=["C08-R2", "C08-R3", "C08-R5", "C01-R3", "C08-R4", "C14-R7", "C01-R5"],
+    rules=["C08-R2", "C08-R3", "C08-R5", "C01-R3", "C08-R4", "C14-R7", "C01-R5", "C15-R8", "C15-R9"],
+    static_rules=[CP.rule_id_corpus],
     mir_rules=[S.rule_version_next, S.rule_creator, S.rule_slot_primitives, S.rule_remover, S2.rule_populate, S2.rule_ctor, S2.rule_grower, E.rule_layout, E.rule_conversions],
     floors={"C08-R2": 2, "C08-R3": lambda c: 5 * n_storages(c), "C08-R5": 3},
     explanation="Static analysis. Decides: C08-R2 the successor generation is checked_add(1) with a panic and no value on overflow (default) resp. wrapping_add(1) mapped away from zero (wrapping_version); "
     "C08-R3 a created handle carries the popped slot index, that slot's current generation and the storage's own A::ARCHETYPE_ID, and is the value stored and returned; "
     "C01-R3 every removal bumps the released slot's generation; C08-R5 generations are never reset; C01-R5 growth threads exactly the never-used tail [len, new capacity) into the free list with the start generation and assign() never touches a generation "
-    "(re-threading a live or used position would hand out its first generation a second time).",
+    "(re-threading a live or used position would hand out its first generation a second time). "
+    "C15-R8/R9 (shared with C15; generated declaration corpus decided by rustc's const evaluator) the archetype ids packed into the handles are pairwise distinct: every generated declaration, with and without "
+    "cfg-disabled items, gets exactly the ids of the discriminant rule and a declaration whose enabled archetypes would share an id is rejected -- two archetypes with one id issue equal handles.",
     not_decided="I4 (the free list yields each free position once) over histories; reuse after wraparound in the wrapping_version build is the documented exception",
 )
 
